@@ -365,6 +365,75 @@ def run(chk, prog):
             'pop_choice_string_and_tags downcasts a popped value to Tag without the is::<Tag>() test before it',
             pct.loc(dc[0]) if dc else pct.loc(0))
 
+    # ---------------------------------------------------------------- H
+    RH = 'C04.unresolved-divert-is-a-fault'
+    chk.rule(RH, 'A divert whose target cannot be found is a story fault, not a jump somewhere near: (a) '
+             'Divert::get_target_pointer reads SearchResult::approximate of the resolution it uses and returns the null '
+             'pointer on its true side (otherwise the nearest container found - for an unknown name the root - becomes '
+             'the target and a call to it never returns); (b) in perform_logic_and_flow_control the test of '
+             'diverted_pointer.is_null() after a divert leads to an Err return, and no call-stack push precedes it.')
+    gtp = prog.fn('Divert::get_target_pointer')
+    if chk.anchor(RH, 'Divert::get_target_pointer', gtp):
+        g_ = cfg(gtp)
+        res = [bb for bb, t in gtp.calls() if callee_short(t) in ('Object::resolve_path', 'Container::content_at_path')]
+        sw = []
+        for bb, t in gtp.terms():
+            if t['k'] == 'switch':
+                c_ = resolve_cond(prog, gtp, t['d'], tr)
+                if c_ is not None and c_.desc[0] == 'field' and c_.desc[1] == 'SearchResult::approximate':
+                    sw.append((bb, t, c_))
+        uses = [bb for bb, t in gtp.calls() if callee_short(t) in ('Pointer::new', 'Pointer::start_of')
+                and any(r in g_.reachable([x]) for x in res for r in [bb])]
+        ok = bool(res) and bool(sw)
+        if ok:
+            for bb, t, c_ in sw:
+                bad = [tb for v, tb in t['ts'] if c_.truth_of_value(v)] + \
+                      ([t['else']] if not c_.truth_of_value(next(iter({0, 1} - {v for v, _ in t['ts']}), 0)) is False
+                       and len(t['ts']) == 1 and c_.truth_of_value(1 - t['ts'][0][0]) else [])
+                reach = g_.reachable(bad, avoid=[bb])
+                if any(u in reach for u in uses):
+                    ok = False
+            # every use of the resolution is dominated by such a test
+            ok = ok and all(any(g_.dominates(b, u) for b, _, _ in sw) for u in uses if any(u in g_.reachable([r]) for r in res))
+        chk.decide(RH, chk.key(RH, 'approximate-not-followed'), ok,
+                   'the approximate flag is tested and its true side builds no pointer',
+                   'Divert::get_target_pointer builds the target pointer from a path resolution without testing '
+                   'SearchResult::approximate: a divert to a name that does not exist lands on the nearest container '
+                   'found (the root for an unknown knot) instead of failing', gtp.loc(res[0]) if res else gtp.loc(0))
+    plf = prog.fn('Story::perform_logic_and_flow_control')
+    if chk.anchor(RH, 'Story::perform_logic_and_flow_control', plf):
+        g_ = cfg(plf)
+        sdp = [bb for bb, t in plf.calls() if callee_short(t) == 'StoryState::set_diverted_pointer'
+               and any('Divert::get_target_pointer' in a for a in tr.prov(plf, t['args'][1]))]
+        nulls = []
+        for bb, t in plf.terms():
+            if t['k'] == 'switch':
+                c_ = resolve_cond(prog, plf, t['d'], tr)
+                if c_ is not None and c_.desc[0] == 'call' and c_.desc[1] == 'Pointer::is_null' \
+                        and 'field:StoryState::diverted_pointer' in c_.desc[2]:
+                    nulls.append((bb, t, c_))
+        if chk.anchor(RH, 'set_diverted_pointer(get_target_pointer())', sdp):
+            from analysis.wbf import err_exits as _ee
+            errs = {b for b, d_, s_ in _ee(prog, plf)}
+            good = False
+            for bb, t, c_ in nulls:
+                if not any(bb in g_.reachable([x]) for x in sdp):
+                    continue
+                true_t = [tb for v, tb in t['ts'] if c_.truth_of_value(v)]
+                if len(t['ts']) == 1 and c_.truth_of_value(1 - t['ts'][0][0]):
+                    true_t.append(t['else'])
+                # from the null side some Err exit is reached without passing a push
+                pushes = [b for b, tt in plf.calls() if callee_short(tt) == 'CallStack::push']
+                r_ = g_.reachable(true_t, avoid=pushes)
+                pre = g_.reachable(sdp, avoid=[bb])
+                if any(e in r_ for e in errs) and not any(p_ in pre and bb in g_.reachable([p_]) for p_ in pushes):
+                    good = True
+            chk.decide(RH, chk.key(RH, 'null-target-reported'), good,
+                       'a null diverted pointer leads to an Err before any call-stack push',
+                       'after a divert whose target pointer is null perform_logic_and_flow_control reports nothing (or '
+                       'pushes a call-stack frame first): the story silently carries on behind the divert',
+                       plf.loc(sdp[0]))
+
     # ---------------------------------------------------------------- G
     RG = 'C04.safe-exit-flag-is-fresh'
     chk.rule(RG, 'The flag that suppresses the "ran out of content" diagnosis (StoryState::did_safe_exit) is false when a '
